@@ -5,7 +5,9 @@ import (
 	"sort"
 	"strings"
 
+	"verif/harness/internal/engine"
 	"verif/harness/internal/gen"
+	"verif/harness/internal/rig"
 )
 
 // genDedupProbe builds an operation aimed at the executor's request de-duplication: one root
@@ -273,4 +275,77 @@ func genAbstractHistoryProbe(r *rand.Rand, cu *cachedUni) (earlier, judged *gen.
 	earlier = &gen.Op{Query: "{ " + c.q.Name + " { ... on " + c.last.Name + " { " + sel + " } } }", Tags: []string{"probe:abstract-history-earlier"}}
 	judged = &gen.Op{Query: "{ " + c.q.Name + " { ... on " + c.first.Name + " { " + c.fl.Name + " } } }", Tags: []string{"probe:abstract-history"}}
 	return earlier, judged
+}
+
+// genPartialCoverProbe builds a selection on a list of an abstract type that covers, by a member fragment, only a
+// member which occurs in the list but is not the type of its last entry: a single server answers {} for the
+// uncovered entries, wherever they stand, and the list stays.  The reference engine is asked first which types
+// the entries have.
+func genPartialCoverProbe(r *rand.Rand, cu *cachedUni) *gen.Op {
+	u := cu.u
+	mono, data, err := rig.LoadMono(cu.spec)
+	if err != nil {
+		return nil
+	}
+	noRequired := func(f *gen.Field) bool {
+		for _, a := range f.Args {
+			if strings.HasSuffix(a.Type, "!") && a.Default == "" {
+				return false
+			}
+		}
+		return true
+	}
+	var cands []*gen.Op
+	for _, q := range u.Query {
+		at := u.Type(gen.BaseName(q.Type))
+		if q.Name == "node" || !noRequired(q) || at == nil || !strings.HasPrefix(q.Type, "[") || (at.Kind != gen.KInterface && at.Kind != gen.KUnion) {
+			continue
+		}
+		ref := engine.Execute(mono, engine.Request{Query: "{ " + q.Name + " { __typename } }"}, data, "")
+		if len(ref.Errors) > 0 || ref.Data == nil {
+			continue
+		}
+		list, _ := rig.Roundtrip(ref.Data).(map[string]any)[q.Name].([]any)
+		if len(list) < 2 {
+			continue
+		}
+		lastT := ""
+		if m, ok := list[len(list)-1].(map[string]any); ok {
+			lastT, _ = m["__typename"].(string)
+		}
+		if lastT == "" {
+			continue
+		}
+		seen := map[string]bool{}
+		for _, e := range list[:len(list)-1] {
+			if m, ok := e.(map[string]any); ok {
+				if tn, _ := m["__typename"].(string); tn != "" && tn != lastT {
+					seen[tn] = true
+				}
+			}
+		}
+		for _, tn := range sortedKeys(seen) {
+			t := u.Type(tn)
+			if t == nil {
+				continue
+			}
+			for _, f := range t.Fields {
+				if f.Name == "id" || !noRequired(f) {
+					continue
+				}
+				if tt := u.Type(gen.BaseName(f.Type)); tt != nil && tt.Kind != gen.KEnum && tt.Kind != gen.KScalar {
+					continue
+				}
+				if t.Kind == gen.KEntity && f.Owner != q.Owner {
+					continue
+				}
+				cands = append(cands, &gen.Op{Query: "{ " + q.Name + " { ... on " + tn + " { " + f.Name + " } } }", Tags: []string{"probe:partial-cover-last-uncovered"}})
+				break
+			}
+		}
+	}
+	if len(cands) == 0 {
+		return nil
+	}
+	return cands[r.Intn(len(cands))]
 }
